@@ -166,7 +166,7 @@ Definition rollback_to_savepoint_f (d : db) (n : spname) : db * result :=
           if (length (x_log x) <? idx)%nat then (d, RPanic)
           else
             let undo := rev (skipn idx (x_log x)) in
-            let x' := mkTxn (x_cat x) (x_tabs x) (firstn (S j) (x_sps x)) (firstn idx (x_log x)) in
+            let x' := mkTxn (x_cat x) (x_tabs x) (x_ixs x) (firstn (S j) (x_sps x)) (firstn idx (x_log x)) in
             match undo_all_f (d_tabs d) undo with
             | (T', Done _) => (mkDb (d_cat d) T' (d_uix d) (Some x'), ROk 0)
             | (T', Fail) => (mkDb (d_cat d) T' (d_uix d) (Some x'), RErr)
